@@ -40,13 +40,13 @@ CONV_FP = ["*.apply", "*.merge"] + READS + API_GEN
 MAP_AS = ["Map (any nesting) violates this property at VALUE level on the unchanged tree: known findings T1, T2, T3 (KNOWN_FINDINGS.json); for Map values the check relies on the correspondence of the faithful model, the refutation witnesses and the monitors' known-finding classes; at KEY level (key set, contexts, pending removes) the property is proved (proofs/MapKeys.v)"]
 
 PROPS = {
-    "C01": P(ALL_REPL, CONV_FP, quick=1000, streams=("structured",),
+    "C01": P(ALL_REPL, CONV_FP + ["*.reset"], quick=1000, streams=("structured",),
              extra_as=["ops generated through the API, each replica editing through its own actor; causal delivery (duplicates allowed)"] + MAP_AS),
     "C02": P([t for t in ALL_REPL if t != "list"], CONV_FP + ["*.reset"], quick=1000, streams=("structured",),
              extra_as=["states reachable by replicas with distinct actors; LWWReg with unique markers"] + MAP_AS),
     "C03": P([t for t in ALL_REPL if t not in ("list", "vclock")], CONV_FP + ["*.reset"], quick=1000, streams=("structured",),
              extra_as=["knowledge sets closed under per-actor order"] + MAP_AS),
-    "C07": P(["orswot", "mvreg", "mapmv", "mapor", "mapmm", "mapmo"], READS + ["ctx.*"] + ["*.apply", "*.merge"], streams=("structured",),
+    "C07": P(["orswot", "mvreg", "mapmv", "mapor", "mapmm", "mapmo"], READS + ["ctx.*"] + ["*.apply", "*.merge"] + API_GEN + ["*.update.closure"], streams=("structured",),
              extra_as=["top-level replicas only; Map: structural facts for every state reachable by well-formed ops and merges, the 'exactly the surviving witnesses' clause is proved for top-level Map keys (C07_map_get_context_exact) and for Orswot members"]),
     "C08": P(["orswot", "mvreg", "mapmv", "mapor", "mapmm", "mapmo", "gcounter", "pncounter", "gset", "glist", "merkle", "list"], CONV_FP + ["*.reset"], quick=1000, streams=("structured",),
              extra_as=["each actor's ops delivered in issue order, otherwise arbitrary"] + MAP_AS),
@@ -60,6 +60,7 @@ PROPS = {
              extra_as=["REFUTED for states holding a pending remove (K3)", "u64 ranges not modelled"]),
     "C20": P(ALL_REPL, CONV_FP + ["*.reset", "mvreg.eq"], quick=1000, streams=("structured",), extra_as=MAP_AS),
     "C04": P(["orswot"], ["orswot.apply", "orswot.merge", "orswot.validate_op"] + ["orswot." + r[2:] for r in READS] + ["orswot.add", "orswot.add_all", "orswot.rm", "orswot.rm_all", "ctx.*"],
+             exact=["orswot.read", "orswot.contains", "orswot.iter"],   # membership and remove contexts are functions of the state (C04 last sentence)
              extra_as=["each actor's adds are delivered in issue order (the documented contract); removes in any order",
                        "ops are generated through the public API from reads of the generating replica"]),
     "C05": P(["mapmv", "mapor", "mapmm", "mapmo"], ["map*.*", "orswot.reset", "mvreg.reset", "orswot.apply", "mvreg.apply", "orswot.merge", "mvreg.merge", "ctx.*", "orswot.add", "orswot.rm", "orswot.rm_all", "mvreg.write", "orswot.contains", "orswot.read"],
@@ -67,7 +68,7 @@ PROPS = {
                        "the KEY half (key set, entry clocks = surviving witnesses, contexts, pending-remove table) is PROVED for every nested value type (proofs/MapKeys.v: Map's key layer simulates an Orswot) and monitored by the extracted decider mkeyspec_ok, which no known finding can mask",
                        "histories of API-generated ops (update with a context from a read for the replica's own actor; rm with the context of get/read_ctx/len/is_empty), per-actor delivery order, duplicates, merges"],
              undischarged=["C05_map_value_claim: 'value of a present key = the surviving nested updates' outside T1/T2/T3 (monitored only; refuted inside)"]),
-    "C06": P(["mvreg"], ["mvreg.apply", "mvreg.merge", "mvreg.read", "mvreg.read_ctx", "mvreg.write", "mvreg.reset", "mvreg.eq", "ctx.*"],
+    "C06": P(["mvreg"], ["mvreg.apply", "mvreg.merge", "mvreg.read", "mvreg.read_ctx", "mvreg.write", "mvreg.reset", "mvreg.eq", "ctx.*"], exact=["mvreg.read"],
              extra_as=["writes are generated through the API with the context of a read; no delivery-order assumption"]),
     "C10": P(["vclock"], ["vclock.*", "dot.*"], quick=1000, all_inputs=True, exact=["vclock.*", "dot.*"],
              extra_as=["clocks are well-formed (no stored zero): proved to be preserved by every API call; a stored zero is only constructible through the public field"]),
@@ -75,7 +76,8 @@ PROPS = {
              ["gcounter.apply", "gcounter.merge", "gcounter.inc", "gcounter.inc_many", "gcounter.read", "gcounter.bigread", "pncounter.bigread",
               "pncounter.apply", "pncounter.merge", "pncounter.inc", "pncounter.dec", "pncounter.inc_many", "pncounter.dec_many", "pncounter.read",
               "gset.*", "maxreg.*", "minreg.*", "lww.apply", "lww.merge", "lww.validate_op", "lww.validate_merge", "lww.new", "lww.default"],
-             exact=["lww.validate_op", "lww.validate_merge"],   # C11_lww_conflict fixes the verdict
+             exact=["lww.validate_op", "lww.validate_merge",    # C11_lww_conflict fixes the verdict
+                    "gcounter.read", "gcounter.bigread", "pncounter.read", "pncounter.bigread", "gset.read", "gset.contains", "maxreg.read", "minreg.read"],   # the read is the aggregate of the state
              extra_as=["LWWReg: markers are unique (the same marker is never written with two values) for the convergence clause"]),
     "C12": P(["list", "glist"], ["list.apply", "list.insert_index", "list.append", "list.delete_index", "list.read", "list.len", "list.position", "list.validate_op", "ident.*", "glist.apply", "glist.merge", "glist.read"],
              streams=("structured",),
@@ -85,7 +87,7 @@ PROPS = {
     "C14": P(["glist"], ["ident.*"], all_inputs=True, quick=1500, exact=["ident.cmp", "ident.eq"],
              extra_tb=["BigRational modelled as Coq's Qc (canonical rationals); num-rational arithmetic trusted"],
              extra_as=["the marker type's Ord is a total order consistent with equality (proved for u64 and OrdDot)"]),
-    "C15": P(["merkle"], ["merkle.*"], all_inputs=True,
+    "C15": P(["merkle"], ["merkle.*"], all_inputs=True, exact=["merkle.read", "merkle.content", "merkle.children", "merkle.parents", "merkle.node", "merkle.num_nodes", "merkle.num_orphans"],
              extra_tb=["SHA3-256 content addressing modelled as an arbitrary injective function (premise of the theorems, no axiom); the driver maps real hashes to fresh model hashes"],
              extra_as=["distinct nodes have distinct hashes (collision-freedom of SHA3)"]),
     "C18": P(["vclock", "gcounter", "pncounter", "mvreg", "orswot", "mapmv", "mapor", "mapmm", "mapmo"],
